@@ -55,3 +55,17 @@ Print Assumptions C16_chunks_preserved.
 Example C16_invalid_text_accepted :
   load 4 100 [0x63; 0xC0; 0x80; 0x80; 0xFF] = LOk (IText [0xC0; 0x80; 0x80]) 4.
 Proof. vm_compute. reflexivity. Qed.
+(* ---- translator tie, second wave: _cbor_unicode_decode and _cbor_unicode_codepoint_count as translated from
+   this run's clang AST are the model's DFA step and count (return value and status; for every value of the
+   locals that are indeterminate when first used) ---- *)
+From Coq Require Import ZArith.
+From CB Require Import GenLeafTypes Bridge_leaf_utf8.
+From CBGen Require Import Gen_leaf.
+Theorem C16_code_unicode_decode : forall state byte codep, state < 16 -> byte < 256 ->
+  proj_rs (g_cbor_unicode_decode (Z.of_N state) codep (Z.of_N byte)) =
+  option_map (fun s => (Z.of_N s, Z.of_N s)) (unicode_decode utf8d state byte).
+Proof. exact bridge_unicode_decode_utf8d. Qed.
+Theorem C16_code_codepoint_count : forall bs u, Forall (fun b => b < 256) bs -> len bs < 2^64 ->
+  proj_rs (g_cbor_unicode_codepoint_count (srcf bs) (Z.of_N (len bs)) u) = zcount (codepoint_count utf8d bs).
+Proof. exact bridge_codepoint_count. Qed.
+Print Assumptions C16_code_codepoint_count.
